@@ -1010,7 +1010,9 @@ def tab5bc(units, R):
                 if must:
                     unesc.append(b)
                 continue
-            if not must:
+            if not must and b >= 128:
+                # an ASCII byte may be escaped (the reader decodes \u007f to the same byte; the spelling is judged below); a byte
+                # of a multi-byte character may not: \u00e9 reads back as the character U+00E9, two other bytes
                 over.append(b)
             if len(t) == 2 and t[0] == 92:
                 letters[b] = t[1]
@@ -1030,7 +1032,8 @@ def tab5bc(units, R):
     R.ob('TAB5b', fn, eloop, 'bytes written as \\u are u + four hex digits spelling the byte, and the cursor steps over all of them', not badu,
          'all control bytes without a letter' if not badu else 'byte %d is written as %r' % badu[0], key='u-format')
     R.ob('TAB5b', fn, None, 'quote, backslash and every control byte are escaped', not unesc, 'unescaped: %s' % unesc, key='must-escape')
-    R.ob('TAB5b', fn, None, 'no other byte is escaped (strings are copied verbatim)', not over, 'also escaped: %s' % over[:8], key='only-escape')
+    R.ob('TAB5b', fn, None, 'no byte above 0x7F is escaped (the bytes of multi-byte characters are copied verbatim)', not over,
+         'escaped as if they were code points: %s' % over[:8], key='only-escape')
     R.ob('TAB5c', fn, eloop, 'every escape letter written is decoded by the parser to the same byte', not wrong,
          'byte->letter %s' % {k: chr(v) for k, v in sorted(letters.items())} if not wrong else 'mismatch %s' % {k: chr(v) for k, v in wrong.items()},
          key='printer-parser')
